@@ -14,7 +14,13 @@ RULE = ("detector: Polling (1/2.5/5/10 MHz, 125 MHz in thorough), Reset (100 Hz/
         "and synthetic window sets at a 1 Hz clock x envelopes of (burst, period) pairs with every duration drawn from "
         "{min-1, min, min+1, mid, max-1, max, max+1}, one-cycle gaps after rejected bursts, over-long bursts and gaps, "
         "random toggling; generator: Polling at 1/2/5/10 MHz (125 MHz in thorough) and synthetic (burst, period) pairs "
-        "incl. powers of two x generate held / pulsed / random")
+        "incl. powers of two x generate held / pulsed / random; transceiver (monitor-only, appended last from an rng "
+        "fork): LFPSTransceiver(ss_clk_freq) at 250 / 62.5 / 4 MHz (never the 125 MHz default) x signaling_received "
+        "envelopes {mostly in-window, trains of 3..5 strictly-in-window bursts after a quiet line, window boundaries "
+        "+-1, the envelopes that would be Polling.LFPS at half / double / the default clock} + send_polling held / "
+        "pulsed / random, polling_/ping_/reset_detected judged by the detector monitor with the windows of the "
+        "transceiver's frequency and drive_electrical_idle / send_signaling by the generator monitor; the same at "
+        "250 Hz (reset_detected judged) and 500 Hz (ping_detected judged)")
 ASSUMPTIONS = [
     "time is counted in ss cycles; the windows are the integers ceil(f*t) the classes compute (recomputed by the "
     "harness with the same expression and compared with the exact rational ceiling)",
@@ -64,6 +70,12 @@ def gen_cases(tier, rng):
         big = cfg[0] == "repo" and cfg[1] > 20e6
         for k in range(2 if big else max(2, per // 2)):
             out.append({"kind": "gen", "cfg": list(cfg), "seed": rng.u64(), "k": k})
+    # appended last (the seeds of the cases above do not move): monitor-only cases through LFPSTransceiver
+    xr = rng.fork("xcvr")
+    for cfg in xcvr_configs(tier):
+        n = {"quick": 4, "widen": 8}.get(tier, 12) if cfg[0] == "polling" else {"quick": 2, "widen": 5}.get(tier, 10)
+        for k in range(n):
+            out.append({"kind": "xcvr", "cfg": list(cfg), "seed": xr.u64(), "k": k})
     return out
 
 
@@ -97,11 +109,11 @@ def around(rng, lo, hi):
     return max(1, rng.choice(c))
 
 
-def det_stimulus(rng, w, k):
+def det_stimulus(rng, w, k, cap=30000, periods=None):
     bmin, bmax, rep, rmin, rmax, _ = w
     mode = k % 5
     rows = []
-    budget = min(30000, (14 if rep else 10) * ((rmax if rep else bmax) + 3) + 40)
+    budget = min(cap, (periods or (14 if rep else 10)) * ((rmax if rep else bmax) + 3) + 40)
     rows.extend([[0]] * rng.range(0, 3))
     while len(rows) < budget:
         if mode == 4 and rng.chance(30):
@@ -275,7 +287,7 @@ def gen_monitor(pattern, f, stim, rows):
     gen = [r[0] for r in stim]
     send = [r[1] for r in rows]
     drive = [r[0] for r in rows]
-    comp = [r[2] for r in rows]
+    comp = [r[2] for r in rows] if rows and rows[0][2] is not None else None      # None: strobe not observable
     bursts = envelope(send)
     for t in range(len(rows)):
         if send[t] and not drive[t]:
@@ -303,6 +315,8 @@ def gen_monitor(pattern, f, stim, rows):
             fails.append({"cycle": t + 1, "sig": "burst-not-started", "what": "generate at idle but no burst one cycle later"})
             return fails
     nb = len(bursts)
+    if comp is None:
+        return fails
     if sum(comp) > nb + 1 or (nb >= 2 and sum(comp) < nb - 1):
         fails.append({"cycle": 0, "sig": "completed-count", "what": "%d completed strobes for %d bursts" % (sum(comp), nb)})
     return fails
@@ -327,8 +341,88 @@ def run_gen(desc):
                 ["drive_electrical_idle", "send_signaling", "completed"])
 
 
+# ------------------------------------------------------------------- the transceiver (monitor-only cases)
+# LFPSTransceiver(ss_clk_freq) instantiates three detectors and the polling generator; the windows that count are
+# those of the frequency the TRANSCEIVER was built for.  Same monitors as above, on the transceiver's own ports.
+
+XCVR_POLL_CLOCKS = (250e6, 62.5e6, 4e6)          # none of them the default 125 MHz; float ceilings exact at all three
+
+
+def xcvr_configs(tier):
+    out = [("polling", f) for f in XCVR_POLL_CLOCKS]
+    out += [("reset", 250.0), ("ping", 500.0)]        # clocks at which that detector's windows are short enough
+    return out
+
+
+def xcvr_stimulus(rng, judged, f, k):
+    from luna.gateware.usb.usb3.physical import lfps as L
+    pattern = {"polling": L._PollingLFPS, "ping": L._PingLFPS, "reset": L._ResetLFPS}[judged]
+    w = windows(pattern, f)
+    if judged != "polling":
+        return [[r[0], 0] for r in det_stimulus(rng, w, k)]
+    mode = k % 4
+    if mode == 3:
+        # the envelopes that WOULD be Polling.LFPS at another clock (half, double, the class default)
+        sc = Fraction(rng.choice([0.5, 2.0, 125e6 / f]))
+        ws = tuple(max(1, ceil(x * sc)) for x in w[:2]) + (1,) + tuple(max(2, ceil(x * sc)) for x in w[3:5]) + (0,)
+        if not ws[1] < ws[4]:
+            ws = w
+        det = det_stimulus(rng, ws, 0, cap=16000, periods=6)
+    elif mode == 1:
+        # trains of 3..5 bursts strictly inside the windows, separated by a line quiet for longer than any repeat
+        # window (the situation in which the monitor demands a report)
+        bmin, bmax, _, rmin, rmax, _ = w
+        det = [[0]] * rng.range(0, 3)
+        while len(det) < min(8000, 14 * (rmax + 3)):
+            for _ in range(rng.range(3, 5)):
+                B = rng.range(bmin + 1, bmax - 1)
+                P = rng.range(max(rmin + 1, B + 1), rmax - 1)
+                det = det + [[1]] * B + [[0]] * (P - B)
+            det = det + [[0]] * (rmax + 3 + rng.range(0, 5))
+    else:
+        det = det_stimulus(rng, w, (0, 0, 2)[mode], cap=16000, periods=6 if w[4] > 1000 else 14)
+    bc, rc = ceil(f * pattern.burst.t_typ), ceil(f * pattern.repeat.t_typ)
+    gen = gen_stimulus(rng, bc, rc, k)
+    n = max(len(det), min(len(gen), 3 * (rc + 2)))
+    return [[det[t][0] if t < len(det) else 0, gen[t][0] if t < len(gen) else 0] for t in range(n)]
+
+
+def run_xcvr(desc):
+    from luna.gateware.usb.usb3.physical import lfps as L
+    judged, f = desc["cfg"]
+    dut = L.LFPSTransceiver(ss_clk_freq=f)
+    stim = desc.get("stimulus") or xcvr_stimulus(Rng(desc["seed"]), judged, f, desc.get("k", 0))
+    outs = [dut.polling_detected, dut.ping_detected, dut.reset_detected, dut.drive_electrical_idle, dut.send_signaling]
+    rows = sim.run_cycles(dut, [dut.signaling_received, dut.send_polling], outs, stim, domain="ss")
+    pats = {"polling": (0, L._PollingLFPS), "ping": (1, L._PingLFPS), "reset": (2, L._ResetLFPS)}
+    # at the two slow clocks only the detector whose windows are non-degenerate there is judged
+    names = ("polling", "ping", "reset") if judged == "polling" else (judged,)
+    fails, tags = [], ["xcvr:%s@%g" % (judged, f)]
+    for name in names:
+        col, pattern = pats[name]
+        fs = det_monitor(windows(pattern, f), [[r[0]] for r in stim], [[r[col]] for r in rows])
+        for x in fs:
+            x["sig"] = "xcvr-%s-%s" % (name, x["sig"])
+            x["what"] = "LFPSTransceiver(ss_clk_freq=%g).%s_detected: %s" % (f, name, x["what"])
+        fails += fs
+        if any(r[col] for r in rows):
+            tags.append("xcvr:%s-detected" % name)
+    if judged == "polling":
+        fs = gen_monitor(L._PollingLFPS, f, [[r[1]] for r in stim], [(r[3], r[4], None) for r in rows])
+        for x in fs:
+            x["sig"] = "xcvr-gen-" + x["sig"]
+            x["what"] = "LFPSTransceiver(ss_clk_freq=%g) generator: %s" % (f, x["what"])
+        fails += fs
+        if len(envelope([r[4] for r in rows])) >= 2:
+            tags.append("xcvr:gen-two-bursts")
+    return Case([2, int(f)], stim, [list(r) for r in rows], fails, tags, desc, ["signaling_received", "send_polling"],
+                ["polling_detected", "ping_detected", "reset_detected", "drive_electrical_idle", "send_signaling"],
+                lean=False)
+
+
 def run_case(desc):
-    return run_gen(desc) if desc.get("kind") == "gen" else run_det(desc)
+    kind = desc.get("kind")
+    return run_gen(desc) if kind == "gen" else run_xcvr(desc) if kind == "xcvr" else run_det(desc)
 
 
 def extra_checks(tier, rng, proof):
